@@ -97,4 +97,13 @@ REG = {
         'point (ssn_freq 1/2/3/10), Appendix B.1.2 on and off, and random histories are executed; TLC judges each step (handler ran or not) and every partial IV on the wire.',
    note='Acceptance is observed at the application handler of a full server context. An older, never accepted in-window request may get either verdict. '
         'UBSan reports inside the replay window code (shift >= 64) count as violations of this property.'),
+ 'C11': dict(module='observe', engine='observe', category='model_checking', design_ref='4/C11',
+   technique='TLA+ spec Observe (TLC closed model of register/change/notify/cancel interleavings) + TLC judging every notification of the real server',
+   text='Observe.tla keeps one entry per (client, resource, query) with the last Observe value and the run of NON notifications; MC_Observe explores all '
+        'interleavings of register / re-register / cancel / change / notify / reset with the counter starting just below the 24-bit wrap. The real server runs '
+        'on the simulator against scripted observers: every cancel cause, re-registration with the same and a new token, 1-4 clients x 1-3 resources with and '
+        'without query, bursts of changes between I/O steps, three notification modes, counter wrap, idle periods beyond the session timeout and random '
+        'histories. TLC requires every notification to go to a registered observer with its token and a strictly fresher Observe value, at most five NON in a '
+        'row, nothing after deregistration, one entry per key, and the last state to reach every observer still registered when the run is quiet.',
+   note='Known finding KF_C11_RST_OLD_NOTIFICATION (RST for an older notification) is reported, not failed. Notifications larger than one block are left to C09.'),
 }
